@@ -118,3 +118,9 @@ func MonitorC06(key string, old []byte, had bool, val []byte) string {
 	}
 	return ""
 }
+
+// MonitorLenient: for objects arriving from a hostile / corrupted peer (C17):
+// key = hash and decodable, canonical re-encoding not required.
+func MonitorLenient(key string, old []byte, had bool, val []byte) string {
+	return CheckStoredObjectLenient(key, val)
+}
